@@ -185,23 +185,63 @@ func (c confSpec) real() nodeconf.Configuration {
 	return rc
 }
 
+// peers listed with type t in at least one of their entries (a peer id may have several entries)
 func (c confSpec) withType(t string) []string {
+	seen := map[string]bool{}
 	var res []string
 	for _, n := range c.Nodes {
-		for _, nt := range n.Types {
-			if nt == t {
-				res = append(res, n.Id)
-				break
-			}
+		if n.has(t) && !seen[n.Id] {
+			seen[n.Id] = true
+			res = append(res, n.Id)
 		}
 	}
 	sort.Strings(res)
 	return res
 }
 
-// trace form: node id -> {t: relevant types, a: addresses}
+// peer ids of the configuration, each once
+func (c confSpec) peers() []string {
+	seen := map[string]bool{}
+	var res []string
+	for _, n := range c.Nodes {
+		if !seen[n.Id] {
+			seen[n.Id] = true
+			res = append(res, n.Id)
+		}
+	}
+	return res
+}
+
+// splitRoles: the same configuration with one multi-role peer listed in two entries, the roles split between
+// them (e.g. [coordinator] first, [tree] later - the shape of the repository's own fixture)
+func splitRoles(c confSpec, rnd *rand.Rand) confSpec {
+	var cand []int
+	for i, n := range c.Nodes {
+		if len(n.Types) >= 2 {
+			cand = append(cand, i)
+		}
+	}
+	if len(cand) == 0 {
+		return c
+	}
+	i := cand[rnd.Intn(len(cand))]
+	n := c.Nodes[i]
+	ts := append([]string{}, n.Types...)
+	// a non-ring role first, when there is one
+	sort.SliceStable(ts, func(a, b int) bool { return ts[a] != "tree" && ts[a] != "fileV2" && (ts[b] == "tree" || ts[b] == "fileV2") })
+	k := 1 + rnd.Intn(len(ts)-1)
+	res := confSpec{Id: c.Id}
+	res.Nodes = append(res.Nodes, c.Nodes[:i]...)
+	res.Nodes = append(res.Nodes, nodeSpec{Id: n.Id, Types: ts[:k], Addrs: n.Addrs})
+	res.Nodes = append(res.Nodes, c.Nodes[i+1:]...)
+	res.Nodes = append(res.Nodes, nodeSpec{Id: n.Id, Types: ts[k:], Addrs: n.Addrs})
+	return res
+}
+
+// trace form: peer id -> {t: relevant types of each of its entries (in list order), a: addresses}
 func (c confSpec) traceForm() map[string]any {
-	m := map[string]any{}
+	ents := map[string][][]string{}
+	addrs := map[string][]string{}
 	for _, n := range c.Nodes {
 		ts := []string{}
 		for _, t := range n.Types {
@@ -212,11 +252,20 @@ func (c confSpec) traceForm() map[string]any {
 				ts = append(ts, "coord")
 			}
 		}
-		as := append([]string{}, n.Addrs...)
+		ents[n.Id] = append(ents[n.Id], ts)
+		as := n.Addrs
 		if len(as) == 0 {
 			as = []string{"127.0.0.1:1"}
 		}
-		m[n.Id] = map[string]any{"t": ts, "a": as}
+		for _, a := range as {
+			if !setOf(addrs[n.Id])[a] {
+				addrs[n.Id] = append(addrs[n.Id], a)
+			}
+		}
+	}
+	m := map[string]any{}
+	for id := range ents {
+		m[id] = map[string]any{"t": ents[id], "a": addrs[id]}
 	}
 	return m
 }
@@ -272,7 +321,7 @@ func variant(c confSpec, rnd *rand.Rand, id string) confSpec {
 	v := confSpec{Id: id}
 	for _, n := range c.Nodes {
 		ts := append([]string(nil), n.Types...)
-		if rnd.Intn(3) == 0 {
+		if rnd.Intn(3) == 0 || (len(ts) == 1 && ts[0] == "tree" && rnd.Intn(2) == 0) {
 			ts = append(ts, "consensus")
 		}
 		rnd.Shuffle(len(ts), func(i, j int) { ts[i], ts[j] = ts[j], ts[i] })
@@ -281,6 +330,7 @@ func variant(c confSpec, rnd *rand.Rand, id string) confSpec {
 	for k := rnd.Intn(3); k > 0; k-- {
 		v.Nodes = append(v.Nodes, nodeSpec{Id: fmt.Sprintf("pad-%s-%d", id, k), Types: []string{[]string{"file", "consensus", "namingNode"}[rnd.Intn(3)]}})
 	}
+	v = splitRoles(v, rnd)
 	rnd.Shuffle(len(v.Nodes), func(i, j int) { v.Nodes[i], v.Nodes[j] = v.Nodes[j], v.Nodes[i] })
 	if len(v.Nodes) > 1 && sameOrder(c, v) {
 		v.Nodes[0], v.Nodes[len(v.Nodes)-1] = v.Nodes[len(v.Nodes)-1], v.Nodes[0]
@@ -488,10 +538,7 @@ type epoch struct {
 func splitId(id string) []string { return strings.Split(id, ".") }
 
 func (e *epoch) run(rep *vfutil.Report) error {
-	participants := []string{client}
-	for _, n := range e.Conf.Nodes {
-		participants = append(participants, n.Id)
-	}
+	participants := append([]string{client}, e.Conf.peers()...)
 	var insts []*instance
 	defer func() {
 		for _, in := range insts {
@@ -882,7 +929,7 @@ func runDynamic(t *testing.T, rep *vfutil.Report, w *vfutil.TraceWriter, rnd *ra
 // coordinator missing, arbitrary change (nodes dropped / retyped / added), only irrelevant changes.
 // (A coordinator stays a coordinator: Dev_DuplicatePeer.)
 func dynPair(rnd *rand.Rand, sc int) (c1, c2 confSpec, class string) {
-	class = []string{"role-swap", "coordinator-address", "coordinator-missing", "arbitrary", "irrelevant"}[sc%5]
+	class = []string{"role-swap", "coordinator-address", "coordinator-missing", "arbitrary", "irrelevant", "split-entries"}[sc%6]
 	id := func(k int) string { return fmt.Sprintf("12D3KooW%sd%dn%d", randCid(rnd)[7:24], sc, k) }
 	c1 = confSpec{Id: fmt.Sprintf("d%da", sc)}
 	n := rnd.Intn(5) + 2
@@ -969,6 +1016,14 @@ func dynPair(rnd *rand.Rand, sc int) (c1, c2 confSpec, class string) {
 			res = append(res, nodeSpec{Id: nid, Types: []string{"tree"}, Addrs: []string{nid + ":443"}})
 		}
 		c2.Nodes = res
+	case "split-entries":
+		// a sync node that is also coordinator is listed in two entries ([coordinator] first, [tree] later) in c1;
+		// c2 lists the same peers the other way round / in one entry
+		nid := id(300)
+		c1.Nodes = append([]nodeSpec{{Id: nid, Types: []string{"coordinator"}, Addrs: []string{nid + ":443"}}}, c1.Nodes...)
+		c1.Nodes = append(c1.Nodes, nodeSpec{Id: nid, Types: []string{"tree"}, Addrs: []string{nid + ":443"}})
+		c2.Nodes = append(c2.Nodes, nodeSpec{Id: nid, Types: []string{"tree", "coordinator"}, Addrs: []string{nid + ":443"}})
+		c2 = splitRoles(c2, rnd)
 	case "irrelevant":
 		for i := range c2.Nodes {
 			if !c2.Nodes[i].has("coordinator") && rnd.Intn(2) == 0 {
